@@ -97,6 +97,7 @@ def applyLevels (r : LogRec) (ls : List Json) : LogRec :=
 def parseCreds (j : Json) : Creds :=
   match getStr j "kind" with
   | some "tuple" => .tuple (chars j "user") (chars j "pw")
+  | some "tupleSub" => .tupleSub (chars j "user") (chars j "pw")
   | some "list" => .list (chars j "user") (chars j "pw")
   | _ => .none
 
